@@ -94,9 +94,15 @@ func (r structReflect) update(fieldEntry *FieldCacheEntry, key string, oldVal, n
 		if r.ParentMapKey == nil {
 			panic("ParentMapKey must not be nil if ParentMap is not nil")
 		}
-		// the replacement starts as a copy of the item, so that only this field changes
+		// the replacement starts as a copy of the item as the map holds it now (an
+		// earlier update through this same handle already replaced it), so that only
+		// this field changes
 		replacement := reflect.New(r.Value.Type()).Elem()
-		replacement.Set(r.Value)
+		if current := r.ParentMap.MapIndex(*r.ParentMapKey); current.IsValid() && current.Type() == r.Value.Type() {
+			replacement.Set(current)
+		} else {
+			replacement.Set(r.Value)
+		}
 		fieldEntry.GetFrom(replacement).Set(newVal)
 		r.ParentMap.SetMapIndex(*r.ParentMapKey, replacement)
 		return
